@@ -1,16 +1,16 @@
 INIT Init
 NEXT Next
 CONSTANTS
-  Pos = {1, 2, 3}
+  Pos = {1, 2}
   ReadBases = {"A"}
   Quals = {10}
-  MaxReads = 2
+  MaxReads = 3
   Refs <- RefsTwo
   UMIs = {1}
-  Sites = {7}
+  Sites = {7, 9}
   Cap = 0
-  MaxNs1 = {0, 2}
-  Variant = "impl_D10"
+  MaxNs1 = {0}
+  Variant = "site_leftmost"
 INVARIANT Inv_C15_Exists
 INVARIANT Inv_C15_Blocks
 INVARIANT Inv_C15_Lens
